@@ -90,6 +90,10 @@ def run(ctx):
         variant = pr.probe_variant()
         cov["variant_detected"] = {"D14 repaired (ret >= m)": variant == "fixed"}
         ctx.log("hostlist_deranged_string behaves as the `%s` variant: the model runs with that switch" % variant)
+        nrv = pr.probe_nextrange()
+        cov["variant_detected"]["F14-NEXTRANGE repaired (_iterator_advance_range guards hr[idx])"] = nrv == "fixed"
+        ctx.log("hostlist_next_range behaves as the `%s` variant: %s" % (nrv, "every list is iterated to its NULL"
+                if nrv == "fixed" else "the final call is not made when the record array is full"))
         gen = Gen(rng, cap=900 if ctx.quick() else 2000)
         cases = []
         if replay_case is not None:
@@ -250,9 +254,9 @@ def sweep_lists(ctx, pr, cases, exact, cov, dist):
                                      (kname(kind), nn, cls), dict(case, kind=kname(kind), n=nn))
         # hostlist_shift_range / hostlist_pop_range / hostlist_next_range until NULL (fixed stack buffers inside hostlist.c,
         # under ASan)
-        for which, fn in (("s", "hostlist_shift_range"), ("p", "hostlist_pop_range"), ("n", "hostlist_next_range")):
+        for which, fn in (("s", "hostlist_shift_range"), ("p", "hostlist_pop_range"), (pr.OPS[pr.NR][-1], "hostlist_next_range")):
             ir, mr = names["pranges " + which], mnames["pranges " + which]
-            if which == "n" and ir.endswith("!end-read-past-hr"):
+            if which in "nN" and ir.endswith("!end-read-past-hr"):
                 # the call that would return NULL reads hl->hr[nranges] with the array full (the harness does not make it)
                 ir = ir[:-len("!end-read-past-hr")]
                 ctx.offender("next-range-end-read-past-hr:nranges=size",
